@@ -118,6 +118,29 @@ func execC20(caseText string) string {
 				}
 				return c20execFile(ts[1] == "rev", content, false)
 			}
+		case "hraw":
+			if len(ts) == 4 {
+				st := func(t string) (*[]byte, bool) {
+					if t == "M" {
+						return nil, true
+					}
+					b, ok := c20unhex(t)
+					if b == nil {
+						b = []byte{}
+					}
+					return &b, ok
+				}
+				a, ok1 := st(ts[2])
+				b, ok2 := st(ts[3])
+				if !ok1 || !ok2 {
+					return "bad-case"
+				}
+				return c20execFileHist(ts[1] == "rev", a, b)
+			}
+		case "lzarr":
+			if len(ts) == 3 {
+				return c20execLzArr(ts[1], ts[2])
+			}
 		case "missing":
 			if len(ts) == 2 {
 				return c20execFile(ts[1] == "rev", nil, true)
@@ -351,6 +374,39 @@ func c20execRdArr(wsS, elems string) string {
 	return c20readArrRaw(c20buildArrDoc(ws, es))
 }
 
+// c20execLzArr: Lazy elements read through the streaming decoder; every value is asked for only after the whole
+// array was collected (a yielded element must keep its value after later elements are pulled)
+func c20execLzArr(wsS, elems string) string {
+	ws, err := strconv.Atoi(wsS)
+	if err != nil {
+		return "bad-case"
+	}
+	var es [][]byte
+	if elems != "-" {
+		for _, t := range strings.Split(elems, ",") {
+			b, ok := c20unhex(t)
+			if !ok {
+				return "bad-case"
+			}
+			es = append(es, b)
+		}
+	}
+	res, err := jsonstream.ReadJsonArray[lazy.Lazy[any]](c20provider(c20buildArrDoc(ws, es))).Collect(context.Background())
+	if err != nil {
+		return "err " + c20rerr(err)
+	}
+	l := make([][]byte, len(res))
+	for i, lz := range res {
+		g := c20getStr(lz)
+		if !strings.HasPrefix(g, "ok:") {
+			return fmt.Sprintf("err get[%d]=%s", i, g)
+		}
+		b, _ := c20unhex(g[3:])
+		l[i] = b
+	}
+	return "ok " + c20hexList(l)
+}
+
 func c20execRdObj(wsS, ents string) string {
 	ws, err := strconv.Atoi(wsS)
 	if err != nil {
@@ -576,10 +632,52 @@ func c20execFile(rev bool, content []byte, missing bool) string {
 			return "err write"
 		}
 	}
+	return c20collectFile(file.StreamFromFile(p, rev), content)
+}
+
+// c20execFileHist: ONE stream value over a path whose file changes between two materialisations (nil = the file
+// does not exist). The observation is the second materialisation; the first one must equal what a fresh stream
+// value gives on the first file state (Go against Go), otherwise "err first-differs".
+func c20execFileHist(rev bool, st1, st2 *[]byte) string {
+	dir, err := os.MkdirTemp("", "c20-")
+	if err != nil {
+		return "err mktemp"
+	}
+	defer os.RemoveAll(dir)
+	p := filepath.Join(dir, "f.txt")
+	put := func(st *[]byte) bool {
+		if st == nil {
+			err := os.Remove(p)
+			return err == nil || os.IsNotExist(err)
+		}
+		return os.WriteFile(p, *st, 0o600) == nil
+	}
+	cont := func(st *[]byte) []byte {
+		if st == nil {
+			return nil
+		}
+		return *st
+	}
+	if !put(st1) {
+		return "err write"
+	}
+	s := file.StreamFromFile(p, rev)
+	first := c20collectFile(s, cont(st1))
+	fresh := c20collectFile(file.StreamFromFile(p, rev), cont(st1))
+	if first != fresh {
+		return "err first-differs"
+	}
+	if !put(st2) {
+		return "err write"
+	}
+	return c20collectFile(s, cont(st2))
+}
+
+func c20collectFile(src stream.Stream[[]byte], content []byte) string {
 	// a correct scan yields at most one element per newline plus one; the bound only matters when the code under
 	// test yields elements forever (then the observation shows the surplus instead of exhausting the memory)
 	bound := bytes.Count(content, []byte{'\n'}) + 3
-	s := stream.Map(file.StreamFromFile(p, rev), func(b []byte) c20Pulled {
+	s := stream.Map(src, func(b []byte) c20Pulled {
 		return c20Pulled{b: b, n: len(b), h: c20fnv(b)}
 	}).Limit(bound)
 	res, err := s.Collect(context.Background())
@@ -799,6 +897,29 @@ func genC20Lazy(c *Ctx) {
 			c.Case(true, fmt.Sprintf("lazy %s %s", mode, src))
 		}
 	}
+	// Lazy elements through the streaming decoder: documents shorter and (mostly) longer than the decoder's read
+	// buffer (512 bytes, doubling), values asked for after the whole array was collected
+	c.Case(false, "lzarr 0 -")
+	for _, k := range []int{1, 3, 40, 200, 1500} {
+		es := make([]string, k)
+		for i := range es {
+			es[i] = c20hex([]byte(fmt.Sprintf(`{"i":%d,"s":"v%d"}`, i, i*7)))
+		}
+		c.Case(true, fmt.Sprintf("lzarr %d %s", k%3, strings.Join(es, ",")))
+	}
+	nl := c.Pick(25, 400)
+	for i := 0; i < nl; i++ {
+		k := 1 + r.Intn(120)
+		es := make([]string, k)
+		for j := range es {
+			v := c20genValue(r, 2)
+			if v == nil {
+				v = []any{nil} // a top-level null is the empty Lazy (covered by the "lazy" cases)
+			}
+			es[j] = c20payload(v)
+		}
+		c.Case(true, fmt.Sprintf("lzarr %d %s", r.Intn(3), strings.Join(es, ",")))
+	}
 	n := c.Pick(150, 3000)
 	for i := 0; i < n; i++ {
 		v := c20genValue(r, 3)
@@ -890,6 +1011,14 @@ func genC20Files(c *Ctx) {
 		}
 	}
 	rec("", 0)
+	// histories on ONE stream value: the file appears, disappears or changes between two materialisations
+	hist := []string{"M", "-", c20hex([]byte("a\n")), c20hex([]byte("a\nbb\nccc")), c20hex([]byte("\nx\r\ny\n")), c20hex([]byte(strings.Repeat("line\n", 1200)))}
+	for _, a := range hist {
+		for _, b := range hist {
+			c.Case(a != b, "hraw fwd "+a+" "+b)
+			c.Case(a != b, "hraw rev "+a+" "+b)
+		}
+	}
 	// line lengths around the scanner buffer boundaries: bufSize/2, bufSize, its doublings, maxTokenSize/2, maxTokenSize
 	single := []int{0, 1, 2, 100, 2046, 2047, 2048, 2049, 4094, 4095, 4096, 4097, 8191, 8192, 8193, 12288, 16383, 16384, 16385,
 		32765, 32766, 32767, 32768, 32769, 65533, 65534, 65535, 65536, 65537, 70000}
